@@ -5,7 +5,7 @@
 (*   [lens, nc, shape, ev]   ev = sequence of events (lens: flow length of  *)
 (*   each data version)                                                    *)
 (*   [cmd, a, res, v, c, rc, pulled, wpre, wmid]                           *)
-(* cmd: new / drop / data / start / next / stop; res: what the consumer    *)
+(* cmd: new / drop / data / start / restart / next / stop; res: what the consumer    *)
 (* saw (ok, val, stop, inj = injected exception of element a, exc = any    *)
 (* other exception); v: the value (decoded to 100 * version + index, -1    *)
 (* when it is not a flow value passed through all downstream elements);    *)
@@ -18,10 +18,10 @@
 EXTENDS Cache, IOUtils
 Trace == JsonDeserialize(IOEnv.TRACE_FILE)
 VARIABLES hi, j
-tvars == <<lens, nc, shape, ver, file, stored, intr, ph, rc, L, eager, pos, out, pulled, wpre, wmid, h, hi, j>>
+tvars == <<rr, lens, nc, shape, ver, file, stored, intr, ph, rc, L, eager, cont, pos, out, pulled, wpre, wmid, h, hi, j>>
 Ev == Trace[hi].ev
 TInit == /\ hi \in 1..Len(Trace) /\ j = 1
-         /\ InitWith(Trace[hi].lens, Trace[hi].nc, Trace[hi].shape)
+         /\ InitWith(TRUE, Trace[hi].lens, Trace[hi].nc, Trace[hi].shape)
 \* a run fed by cache l touches nothing before l (inside a Split, eg, the source is read by Split.run itself)
 UntouchedE(l, eg, e) == l > 0 => (eg \/ e.pulled = 0) /\ e.wpre = 0 /\ (l = 2 => e.wmid = 0)
 Untouched(l, e) == UntouchedE(l, eager, e)
@@ -30,6 +30,7 @@ Match(e) ==
   \/ e.cmd = "drop" /\ e.c \in 1..nc /\ (file[e.c].k = "F" => e.res = "ok") /\ Drop(e.c)
   \/ e.cmd = "data" /\ ChangeData
   \/ e.cmd = "start" /\ e.res = "ok" /\ Start(e.a) /\ UntouchedE(L', eager', e)
+  \/ e.cmd = "restart" /\ e.res = "ok" /\ Restart /\ UntouchedE(L', eager', e)
   \/ e.cmd = "next" /\ e.res = "val" /\ Deliver /\ e.v = Cur[pos + 1] /\ Untouched(L, e)
   \/ e.cmd = "next" /\ e.res = "stop" /\ Exhaust /\ Untouched(L, e)
   \/ e.cmd = "next" /\ e.res = "inj" /\ e.a \in Sites /\ RaiseAt(e.a) /\ Untouched(L, e)
